@@ -11,6 +11,7 @@
 
 #include "density_legalizer.hpp"
 #include "net_model.hpp"
+#include "utils/verif_hooks.hpp"
 
 namespace coloquinte {
 
@@ -245,6 +246,7 @@ void GlobalPlacer::runLB() {
   std::vector<float> yTarget = blendPlacement(yPlacementLB_, yPlacementUB_, w);
 
   // Solve the continuous model (x and y independently)
+  COLOQUINTE_VERIF_POINT(VERIF_LB_BEGIN, &xtopo_);
   std::future<std::vector<float> > x =
       std::async(std::launch::async, &NetModel::solveWithPenalty, &xtopo_,
                  xPlacementLB_, xTarget, penalty, params);
@@ -253,6 +255,7 @@ void GlobalPlacer::runLB() {
                  yPlacementLB_, yTarget, penalty, params);
   xPlacementLB_ = x.get();
   yPlacementLB_ = y.get();
+  COLOQUINTE_VERIF_POINT(VERIF_LB_JOINED, &xtopo_);
   callback(PlacementStep::LowerBound, xPlacementLB_, yPlacementLB_);
 }
 
